@@ -9,6 +9,7 @@ mod c11;
 mod tlv;
 mod tlv_parse;
 mod lv;
+mod pod;
 
 use emit::Report;
 
@@ -74,6 +75,8 @@ fn main() {
         "C02" => (tlv_parse::run(&ctx), 100),
         "C09" => (lv::run_c09(&ctx), 100),
         "C10" => (lv::run_c10(&ctx), 200),
+        "C13" => (pod::run_c13(&ctx), 400),
+        "C14" => (pod::run_c14(&ctx), 400),
         _ => {
             eprintln!("unknown property {}", prop);
             std::process::exit(2);
